@@ -991,7 +991,7 @@ class AdbDevice(object):
 
         """
         if progress_callback:
-            total_bytes = self.stat(device_path)[1]
+            total_bytes = self.stat(device_path, adb_info.transport_timeout_s, adb_info.read_timeout_s)[1]
 
         self._filesync_send(constants.RECV, adb_info, filesync_info, data=device_path)
         for cmd_id, _, data in self._filesync_read_until([constants.DATA], [constants.DONE], adb_info, filesync_info):
